@@ -444,6 +444,7 @@ def parseLine(raw, eols=(CRLF, LF, CR ), kind="event line"):
     Raise error if eol not found before MAX_LINE_SIZE
     """
     tail = b''  # rest of eol split across reads such as LF of CRLF when CR ended raw
+    slack = max(len(e) for e in eols) - 1  # size of partial eol that may end raw
     while True:
         if tail and raw:  # drop rest of split eol if any
             if raw.startswith(tail):
@@ -457,7 +458,7 @@ def parseLine(raw, eols=(CRLF, LF, CR ), kind="event line"):
                 index, eol = i, e
 
         if index < 0:  # not found
-            if len(raw) > MAX_LINE_SIZE:
+            if len(raw) > MAX_LINE_SIZE + slack:
                 raise LineTooLong(kind)
             else:
                 (yield None)  # more data needed not done parsing header
@@ -486,6 +487,7 @@ def parseLeader(raw, eols=(CRLF, LF), kind="leader header line", headers=None):
     Raise error if eol not found before  MAX_LINE_SIZE
     """
     headers = headers if headers is not None else cimdict()
+    slack = max(len(e) for e in eols) - 1  # size of partial eol that may end raw
     while True:  # loop until entire heading indicated by empty line
         index, eol = -1, b''
         for e in eols:  # earliest eol in raw, first listed wins a tie
@@ -494,7 +496,7 @@ def parseLeader(raw, eols=(CRLF, LF), kind="leader header line", headers=None):
                 index, eol = i, e
 
         if index < 0:  # not found
-            if len(raw) > MAX_LINE_SIZE:
+            if len(raw) > MAX_LINE_SIZE + slack:
                 raise LineTooLong(kind)
             else:
                 (yield None)  # more data needed not done parsing header
